@@ -150,12 +150,13 @@ def drive(rec, ms, quick):
                             rec.violation("%s m=%d mask=%d impulse at %d: output %d is w^%d, the documented map gives w^%d" % (
                                 name, m, mask, i, jbad, int(ex[jbad]), int(exp_all[jbad])), {"impl": name, "m": m, "i": i, "j": jbad})
                 # ---------------- accuracy on dense inputs + determinism + table immutability
-                fams = ["const", "resonant", "dynrange", "tiny", "huge", "random"] if (m <= 4096 or not quick) else ["random", "tiny"]
+                fams = ["const", "resonant", "resonant-last", "dynrange", "tiny", "huge", "random"] if (m <= 4096 or not quick) else \
+                       ["random", "tiny", "resonant-last"]
                 for fam in fams:
                     if fam == "const":
                         z = np.full(m, 1.0 - 2.0j)
-                    elif fam == "resonant":      # conjugates of the powers of one evaluation root: the energy concentrates in one output
-                        j0 = rng.randrange(m)
+                    elif fam in ("resonant", "resonant-last"):      # conjugates of the powers of one evaluation root: the energy concentrates in one output
+                        j0 = rng.randrange(m) if fam == "resonant" else m - 1 - rng.randrange(min(m, 16))      # (one of the last 16 outputs: the last leaf)
                         e = 1 + 4 * int(bitrev_perm(m)[j0])
                         z = np.exp(-2j * np.pi * e * np.arange(m) / (4 * m)) if tr == "fft" else np.exp(2j * np.pi * (np.arange(m) % 7) / 7)
                     elif fam == "dynrange":
